@@ -194,11 +194,13 @@ func TestChild(t *testing.T) {
 			return
 		}
 	}
-	if caseID := fmt.Sprintf("child-%d/same-key-writers", b); sp.Case == "" || sp.Case == caseID {
+	// (in the thorough tier, with its hundreds of children, every fourth child runs these two)
+	twoWriters := sp.Tier != "thorough" || b%4 == 0
+	if caseID := fmt.Sprintf("child-%d/same-key-writers", b); twoWriters && (sp.Case == "" || sp.Case == caseID) {
 		wr.InFlight(caseID)
 		sameKeyScenario(wr, caseID, rand.New(rand.NewSource(sp.Seed*1000099+int64(b)*149)), sp.Tier == "thorough")
 	}
-	if caseID := fmt.Sprintf("child-%d/repoint-vs-group-delete", b); sp.Case == "" || sp.Case == caseID {
+	if caseID := fmt.Sprintf("child-%d/repoint-vs-group-delete", b); twoWriters && (sp.Case == "" || sp.Case == caseID) {
 		wr.InFlight(caseID)
 		replaceVsGroupDelete(wr, caseID, rand.New(rand.NewSource(sp.Seed*1000117+int64(b)*151)), sp.Tier == "thorough")
 	}
